@@ -77,6 +77,13 @@ fn close_scenario(seed: u64, thorough: bool) -> Result<Outcome, String> {
 	let anchors = !holder_close && rng.chance(1, 3);
 	let cfg = if anchors { test_default_channel_config() } else { test_legacy_channel_config() };
 	let mut net = std::mem::ManuallyDrop::new(Net::new(2, vec![Some(cfg.clone()), Some(cfg)]));   // never dropped: skips Node::drop's end-of-test assertions (half-finished scenario by design)
+	{	// block-delivery style from the scenario seed (create_network draws it from a per-process RandomState otherwise)
+		use ConnectStyle::*;
+		let styles = [BestBlockFirst, BestBlockFirstSkippingBlocks, BestBlockFirstReorgsOnlyTip, TransactionsFirst, TransactionsFirstSkippingBlocks,
+			TransactionsDuplicativelyFirstSkippingBlocks, HighlyRedundantTransactionsFirstSkippingBlocks, TransactionsFirstReorgsOnlyTip, FullBlockViaListen,
+			ReplayedFullBlockViaListen, FullBlockDisconnectionsSkippingViaListen];
+		*net.nodes[0].connect_style.borrow_mut() = styles[rng.below(styles.len() as u64) as usize];
+	}
 	let c = net.open(0, 1, 1_000_000, 400_000_000);
 	let chan_id = net.chans[c].2;
 	let a = 0usize; let b = 1usize;
